@@ -37,8 +37,11 @@ decidable predicate `provedKind` (`QV.C02.Spec`), which covers ALL 40 printable 
 * DEFWAVEFORM, DEFFRAME (string and expression attributes);
 * DEFGATE with all four specifications (MATRIX — empty rows included —, PERMUTATION, PAULI-SUM, SEQUENCE whose
   qubit variables are not reserved words);
-* DEFCAL, DEFCAL MEASURE and DEFCIRCUIT whose body consists of one-line kinds (a definition nested in a body is
-  outside the proved subset; it is covered by the correspondence check and `C02_regression_nestedCircuit`).
+* DEFCAL, DEFCAL MEASURE and DEFCIRCUIT whose body consists of one-line kinds and — as its LAST instruction only,
+  which is the only place where the parser ever returns one: a nested definition swallows the rest of the
+  enclosing body — possibly a definition among DEFWAVEFORM, DEFFRAME, DEFCAL with a body of one-line kinds
+  (`bodyOk1`; round 4).  Deeper nesting and DEFCAL MEASURE / DEFCIRCUIT / DEFGATE inside a body are outside the
+  proved subset; they are covered by the correspondence check.
 
 `≈` is equality up to the order of waveform parameters (`mapProg canonInstr`).  The equality is that of the
 instruction containers `Prog`; the used-qubit CACHE of the real `Program` is not part of `Prog` — for a
@@ -154,6 +157,20 @@ example : ∃ ts, printProgramTokens stdFmt (build
        .gateDefinition ⟨"Q", [], .sequence ⟨["a", "b"], [⟨"H", [], [.variable "a"], []⟩,
           ⟨"CNOT", [], [.variable "a", .variable "b"], []⟩]⟩⟩,
        .calibrationDefinition ⟨[], "X", [], [.fixed 0]⟩ [.gate ⟨"Y", [], [.fixed 6], []⟩]]).listing = .ok ts ∧
+    ∃ is', parseProgram ts = .ok is' [] :=
+  let ⟨ts, h1, is', h2, _⟩ := C02_roundtrip_partial stdFmt _ (by decide) (by decide) (by decide)
+  ⟨ts, h1, is', h2⟩
+
+/-- non-vacuity for definitions nested in bodies (round 4): the class repaired by b8ed6d0 (a DEFCAL at the end of a
+DEFCIRCUIT body), a DEFFRAME at the end of a DEFCAL body after one-line instructions, a DEFWAVEFORM at the end of a
+DEFCAL MEASURE body -/
+example : ∃ ts, printProgramTokens stdFmt (build
+      [.circuitDefinition "C" [] ["q"] [.nop, .calibrationDefinition ⟨[], "X", [], [.variable "q"]⟩ [.nop, .wait]],
+       .calibrationDefinition ⟨[], "Y", [], [.fixed 0]⟩
+         [.gate ⟨"Z", [], [.fixed 0], []⟩, .halt, .frameDefinition ⟨⟨"xy", [.fixed 0]⟩, [("DIRECTION", .string "tx")]⟩],
+       .measureCalibrationDefinition ⟨none, .fixed 1, none⟩
+         [.wait, .waveformDefinition ⟨"w", ⟨[.pi, .var "t"], ["t"]⟩⟩],
+       .nop]).listing = .ok ts ∧
     ∃ is', parseProgram ts = .ok is' [] :=
   let ⟨ts, h1, is', h2, _⟩ := C02_roundtrip_partial stdFmt _ (by decide) (by decide) (by decide)
   ⟨ts, h1, is', h2⟩
